@@ -29,7 +29,7 @@ MANIFEST = {
 
 PLAN = {
     # tier: (mc cfgs, (tlc scenarios, depth), seeded scenarios, shards)
-    "quick": (["MC_EvmWatcher_quick.cfg", "MC_EvmWatcher_reobs_quick.cfg", "MC_EvmWatcher_intake_quick.cfg", "MC_EvmWatcher_restart_quick.cfg"], (200, 36), 800, 4),
+    "quick": (["MC_EvmWatcher_quick.cfg", "MC_EvmWatcher_reobs_quick.cfg", "MC_EvmWatcher_intake_quick.cfg", "MC_EvmWatcher_restart_quick.cfg"], (200, 36), 800, 6),
     "thorough": (["MC_EvmWatcher_thorough.cfg", "MC_EvmWatcher_reobs_thorough.cfg", "MC_EvmWatcher_mixed_thorough.cfg", "MC_EvmWatcher_intake_thorough.cfg", "MC_EvmWatcher_restart_thorough.cfg"], (2500, 44), 9500, 8),
 }
 
